@@ -88,8 +88,22 @@ Definition absurl_of (i : term) : string -> bool :=
 
 Definition run_fetch (i : term) : term :=
   match fetch_symbolize (in_mode i) (env_of i) (absurl_of i) (in_script i) (in_src i) (in_profile i) with
-  | FOut p' calls => TL [TS "ok"; of_profile p'; TL (map of_call calls); TZ 1 (* the saved copy agrees *)]
+  | FOut p' calls => TL [TS "ok"; of_profile p'; TL (map of_call calls); TZ 1 (* the saved copy agrees *);
+                         TZ 1 (* Go's CheckValid accepts the returned profile *)]
   | FErr calls => TL [TS "err"; TL (map of_call calls)]
+  | FPanic => TL [TS "panic"; TS "model"]
+  end.
+
+(* op "fetchx": fetchProfiles with a THIRD-PARTY symbolizer plug-in whose behaviour is recorded by the
+   harness: arguments = mode, fetched profile, TL [profile as the plug-in left it; error returned;
+   pointers consistent (Go's CheckValid verdict at plug-in exit)], source URL, url table *)
+Definition run_fetchx (i : term) : term :=
+  let ans := gn i 2 in
+  let absurl := let t := btab_of (gn i 4) in fun f => match assoc_s t f with Some b => b | None => false end in
+  let plug : plugin_t := fun _ _ _ => Some (profile_of (gn ans 0), gb (gn ans 1), gb (gn ans 2), []) in
+  match fetch_generic plug (gs (gn i 0)) absurl (gs (gn i 3)) (profile_of (gn i 1)) with
+  | FOut p' _ => TL [TS "ok"; of_profile p'; TZ 1]
+  | FErr _ => TL [TS "err"]
   | FPanic => TL [TS "panic"; TS "model"]
   end.
 
@@ -98,6 +112,7 @@ Definition run_C12 (i : term) : term :=
   if String.eqb (op_of i) "sym" then run_sym a
   else if String.eqb (op_of i) "sym2" then run_sym2 a
   else if String.eqb (op_of i) "fetch" then run_fetch a
+  else if String.eqb (op_of i) "fetchx" then run_fetchx a
   else if String.eqb (op_of i) "adjust" then
     match adjust (gz (gn a 0)) (gz (gn a 1)) with
     | Some r => TL [TZ 1; TZ r]
@@ -144,8 +159,14 @@ Definition spec_fetch (i o : term) : bool :=
     let p' := profile_of (gn o 1) in
     frame_okb p p' && lines_attachedb p p' && flags_raisedb p p' &&
     (force_requested (in_mode i) || left_aloneb p p') &&
-    check_valid p' && gb (gn o 3) &&
+    check_valid p' && gb (gn o 3) && gb (gn o 4) &&
     (negb (filter_tables_nonempty i) || names_keptb p p').
+
+(* whatever the symbolizer plug-in did: what fetchProfiles returns is a valid profile *)
+Definition spec_fetchx (i o : term) : bool :=
+  if String.eqb (gs (gn o 0)) "err" then true
+  else if negb (String.eqb (gs (gn o 0)) "ok") then false
+  else check_valid (profile_of (gn o 1)) && gb (gn o 2).
 
 (* adjust: no wrap-around goes unnoticed: success exactly when addr+offset is a uint64, and then that sum *)
 Definition spec_adjust (a o : term) : bool :=
@@ -155,6 +176,7 @@ Definition spec_adjust (a o : term) : bool :=
 Definition spec_C12 (i o : term) : bool :=
   if String.eqb (op_of i) "sym" || String.eqb (op_of i) "sym2" then spec_sym (args_of i) o
   else if String.eqb (op_of i) "fetch" then spec_fetch (args_of i) o
+  else if String.eqb (op_of i) "fetchx" then spec_fetchx (args_of i) o
   else if String.eqb (op_of i) "adjust" then spec_adjust (args_of i) o
   else true.
 
